@@ -113,7 +113,8 @@ class Exec(ExprMixin, StmtMixin, CallMixin, ContractMixin):
             if isinstance(ty, Callable_):
                 env[n] = ty
                 continue
-            env[n] = self.fresh_param(st, n, ty, exact=(i == 0 and is_method))
+            abstract_self = isinstance(ty, TRef) and ty.cls in dsl.REG.classes and dsl.REG.classes[ty.cls].abstract
+            env[n] = self.fresh_param(st, n, ty, exact=(i == 0 and is_method and not abstract_self))
         for pre in decl.opts.get("distinct", []):
             a, b = pre
             st.assume(env[a].t != env[b].t)
